@@ -59,16 +59,20 @@ class Mon:
         self.caches = {}
         self.n = 0
 
-    def check(self, props, syntax, opts, cls):
+    def check(self, props, syntax, opts, cls, scope_arg=None):
         """props: list of (key, values, important)"""
         ctx = self.ctx
         ctx.ev(cls)
         abbr = '+'.join(k + G.write_values(v, imp) for k, v, imp in props)
         cfg = {'type': 'stylesheet', 'syntax': syntax, 'options': dict(opts), 'snippets': dict(G.USER_SNIPPETS)}
         self.n += 1
+        # what an editor passes inside a rule body: the scope that admits property snippets (the result is the same as without any scope)
+        scope = {0: '@@property', 1: '@@global'}.get(self.n % 5) if scope_arg is None else scope_arg
+        if scope:
+            cfg['context'] = {'name': scope}
         if self.n % 400:
-            cfg['cache'] = self.caches.setdefault((syntax, repr(sorted(opts.items(), key=repr))), {})
-        case = {'abbr': abbr, 'syntax': syntax, 'options': opts,
+            cfg['cache'] = self.caches.setdefault((syntax, scope, repr(sorted(opts.items(), key=repr))), {})
+        case = {'abbr': abbr, 'syntax': syntax, 'options': opts, 'scope': scope or '',
                 'props': [[k, v, imp] for k, v, imp in props]}
         r = core.call(self.expand, abbr, cfg)
         ctx.mon('oracle:line-shape')
@@ -250,7 +254,7 @@ def run_shard(desc, ctx):
 def replay(case, ctx):
     if 'props' not in case:
         return
-    Mon(ctx).check([(k, v, imp) for k, v, imp in case['props']], case['syntax'], case['options'], 'replay')
+    Mon(ctx).check([(k, v, imp) for k, v, imp in case['props']], case['syntax'], case['options'], 'replay', case.get('scope', ''))
 
 
 CLASSIFIERS = {}
